@@ -63,6 +63,7 @@ def run(ctx):
     rule13(ctx, prog, flows)
     rule15(ctx, prog, flows)
     rule14(ctx, prog, flows)
+    rule16(ctx, prog, flows)
     from props.c10 import bfs_expansion
 
     bfs_expansion(ctx, prog, flows, "R-C02-12", "on a directed graph the search then lists nodes that no chain of get_successor_nodes steps reaches: breadth_first_search disagrees with the successor queries and with the stored edges' direction")
@@ -845,3 +846,38 @@ def rule14(ctx, prog, flows):
                 else:
                     ctx.ok("R-C02-14", kid, "directed: %s; undirected: %s if %s > %s, %s if %s < %s" % ("/".join(sorted(forms["dir"])) or "-", "/".join(sorted(forms["gt"])), X, Y, "/".join(sorted(forms["lt"])), X, Y), loc_str(t.span))
     ctx.floor("R-C02-14", "oriented_key_accesses", n, 5)
+
+
+def rule16(ctx, prog, flows):
+    """R-C02-16.  A node is held in two stores -- the position-ordered list (get_all_nodes, get_node_by_index's
+    callers) and the position-keyed map (get_node, the successor / predecessor / neighbour node queries).  When a name
+    is added again the new node (new attributes) replaces the old one in BOTH, unconditionally.  An insert-if-absent
+    (entry(..).or_insert*, try_insert) into a node-valued map keeps the old node for a name that exists: get_node then
+    describes another node than get_all_nodes.  Decided on the CFG of add_node: every overwrite of a slot of nodes_vec is
+    followed on every path to the return by a HashMap::insert (the overwriting write) into nodes_map_rev.  An
+    insert-if-absent in the arm for a NEW name is fine (refactorings R9, R50, R66, R90, R98 write it that way) and is
+    not looked at."""
+    ctx.rule("R-C02-16", "a re-added node replaces the stored node in the node list AND in the position-keyed node map, unconditionally (no insert-if-absent on a node-valued map)")
+    n_maps = 0
+    for b in list(prog.bodies.values()):
+        if not b.path.startswith("graph::"):
+            continue
+        for t in b.calls():
+            if not t.callee:
+                continue
+            sh = t.callee.short
+            ga = t.callee.args or []
+            if (sh.endswith("HashMap::insert") or sh.endswith("HashMap::entry") or sh.endswith("HashMap::try_insert")) and len(ga) >= 2 and "node::Node<" in ga[1]:
+                n_maps += 1
+    ctx.floor("R-C02-16", "node_map_writes", n_maps, 2)
+    an = prog.one("creation::Graph::add_node")
+    fl = flows.of(an)
+    from panic import norm as _norm
+    slots = [t for t in an.calls() if t.callee and t.callee.short.endswith("IndexMut::index_mut") and t.args and _norm(fl.describe(t.args[0], depth=2)) == ("place", "self.nodes_vec")]
+    revs = {t.bb for t in an.calls() if t.callee and t.callee.short.endswith("HashMap::insert") and t.args and _norm(fl.describe(t.args[0], depth=2)) == ("place", "self.nodes_map_rev")}
+    rets = set(an.return_blocks())
+    for i, t in enumerate(slots):
+        escaped = rets & set(an.reachable_from(t.bb, avoid=tuple(sorted(revs))))
+        ctx.require(not escaped, "R-C02-16", "paired|%d" % i, "the overwrite of nodes_vec[i] in add_node is followed by nodes_map_rev.insert(i, ..) on every path",
+                    "add_node can return after overwriting nodes_vec[i] without inserting the new node into nodes_map_rev: the two node stores then hold different nodes for one name", loc_str(t.span))
+    ctx.floor("R-C02-16", "node_slot_overwrites", len(slots), 1)
